@@ -3,7 +3,8 @@ CONSTANTS
   F = {"b", "c"}
   MaxRec = 4
   MaxEp = 2
-  FetchMax = 1
+  FetchMax = 2
+  WideEvery = 3
   SlowTimeouts = TRUE
   ZombieSteals = FALSE
   MaxTick = 2
